@@ -210,7 +210,9 @@ func (g *Gen) pointVal() model.Point {
 		cur = g.m.ME[r.N(len(g.m.ME))]
 		have = !cur.IsInf()
 	}
-	switch r.Pick([]float64{3, 2, 2, 1, 1, 1, 1, 2}) {
+	switch r.Pick([]float64{3, 2, 2, 1, 1, 1, 1, 2, 0.7}) {
+	case 8:
+		return g.structuredXPoint()
 	case 0:
 		return g.cachedPoint()
 	case 1:
@@ -247,6 +249,50 @@ func (g *Gen) pointVal() model.Point {
 		return model.Mul(k, model.G())
 	}
 	return g.cachedPoint()
+}
+
+// structuredXPoint returns a curve point whose x coordinate has the limb
+// structure where carry chains and range checks of field code break: zero,
+// all-ones or single-bit limbs, or a value just below p.
+func (g *Gen) structuredXPoint() model.Point {
+	r := g.r
+	x := new(big.Int)
+	if r.P(0.25) {
+		x.Sub(model.P, big.NewInt(int64(1+r.N(64))))
+	} else {
+		for i := 0; i < 4; i++ {
+			var limb uint64
+			switch r.N(5) {
+			case 0:
+				limb = 0
+			case 1:
+				limb = ^uint64(0)
+			case 2:
+				limb = 1 << uint(r.N(64))
+			case 3:
+				limb = ^uint64(0) << uint(r.N(64))
+			default:
+				limb = r.U64()
+			}
+			x.Lsh(x, 64)
+			x.Or(x, new(big.Int).SetUint64(limb))
+		}
+		x.Mod(x, model.P)
+	}
+	for {
+		rhs := new(big.Int).Mul(x, x)
+		rhs.Mul(rhs, x)
+		rhs.Add(rhs, big.NewInt(7))
+		rhs.Mod(rhs, model.P)
+		if y, ok := model.SqrtP(rhs); ok {
+			if r.P(0.5) {
+				y.Sub(model.P, y)
+			}
+			return model.Point{X: x, Y: y}
+		}
+		x.Add(x, big.NewInt(1))
+		x.Mod(x, model.P)
+	}
 }
 
 // tinyXPoint returns a curve point whose x is so small that x + p still fits
